@@ -19,6 +19,10 @@ BOOKKEEPING_TABLES = ('django_project_version', 'django_evolution',
                       'auth_permission')
 
 
+import re as _re
+_SAVEPOINT_RE = _re.compile(r'\bs\d{6,}_x(\d+)\b')
+
+
 class Trace(object):
     def __init__(self, path, scrub):
         self.fd = os.open(path, os.O_WRONLY | os.O_CREAT | os.O_APPEND, 0o644)
@@ -31,6 +35,8 @@ class Trace(object):
         line = json.dumps(ev, sort_keys=True, default=repr)
         for a, b in self.scrub:
             line = line.replace(a, b)
+        # Django names savepoints after the thread id: s<ident>_x<n>
+        line = _SAVEPOINT_RE.sub(r's<T>_x\1', line)
         os.write(self.fd, (line + '\n').encode('utf-8'))
 
 
